@@ -16,12 +16,16 @@ LEVEL_TEXT = ("Proof (Coq): for the executable model of ThresholdOptimizer.fit (
               "objective, flip and grid size the expected constrained metric of the fitted rule on each group's training rows "
               "equals the chosen grid value (simple constraints: C04_simple_parity; equalized odds: FPR = x_best and "
               "TPR = y_best, C04_eo_parity_fpr / C04_eo_parity_tpr, the latter using the proved hull correctness). Tie to "
-              "the code: translators t_metricdict / t_hull (fail closed) + differential run of the same Gallina functions "
-              "against the real fit/_pmf_predict.")
-LEVEL_NOTE = ("Trusted: Coq kernel + vm_compute; the two translators; the harness. The estimator run is correspondence, not "
+              "the code: translators t_metricdict / t_hull / t_threshopt (fail closed; t_threshopt regenerates the optimisation "
+              "step -- group weight len(group)/n, overall += p*y, idxmax, one common row index, np.amin, objective counts, "
+              "p_ignore, prediction_constant -- and the tradeoff-point construction -- midpoint, '>' / flipped '<' only when "
+              "flip, degenerate-label guard, (x,y) sort keys -- as tags and expressions that C04_optimisation_is_source, "
+              "C04_accumulation_is_source, C04_eo_optimisation_is_source, C04_tradeoff_points_are_source prove equal to the "
+              "model definitions) + differential run of the same Gallina functions against the real fit/_pmf_predict.")
+LEVEL_NOTE = ("Trusted: Coq kernel + vm_compute; the three translators; the harness. The estimator run is correspondence, not "
               "proof; float rounding is outside the model (compared within 1e-9).")
 TECHNIQUE = "Coq proof about the executable model of fit + pmf; source translators; differential model/implementation run"
-TRUSTED = ["Coq 8.16.1 kernel and vm_compute", "translators/t_metricdict.py, translators/t_hull.py (Python ast -> Gallina)",
+TRUSTED = ["Coq 8.16.1 kernel and vm_compute", "translators/t_metricdict.py, translators/t_hull.py, translators/t_threshopt.py (Python ast -> Gallina)",
            "harness/props/_c04_common.py (generators, oracles computed from the implementation's own _pmf_predict)",
            "numpy/pandas float arithmetic, groupby and stable multi-key sort (modelled, compared by correspondence)",
            "no axioms (Print Assumptions: closed)"]
@@ -32,7 +36,10 @@ ASSUMPTIONS = ["scores are finite; the model uses integer score levels (any fini
 RULE = ("cases: every multiset (up to group swap and order-preserving relabelling of score levels) of (group,label,level) rows "
         "with 2 groups, <=3 levels, <=5 rows (thorough <=6) in which each group has both labels, each with 3 (thorough 6) "
         "configurations taken in rotation from the 378 = constraints x admissible objectives x flip x grid{1,2,3,4,5,7,10}; "
-        "plus random tables (2..5 groups, 2..8 rows each, <=5 levels, grid sizes up to 1000). non-trivial = the chosen grid "
+        "plus random tables (2..5 groups, 2..8 rows each, <=5 levels, grid sizes up to 1000); plus four structured streams "
+        "(45 each, thorough 250): flip=False with one anti-correlated group (3/4 equalized odds), a single-distinct-score "
+        "group beside heavily tied groups, a 2-row group beside a 10..18-row group / 1 row of one label against many, "
+        "grid_size 1 and 2 (frequencies: tags shape:*, eo:*). non-trivial = the chosen grid "
         "value is interior, or some group's rule is a genuine mixture (0<p0<1), or p_ignore>0")
 EXHAUSTIVE = {"quick": False, "thorough": False}
 PARTIAL = []
